@@ -97,7 +97,8 @@ EnumMistakes(E, it, p, Pf) ==
   IN
   CASE it.form = "junk" -> <<M("other", "", Pf, p, FALSE)>>
     [] it.form = "word" ->
-         IF (\E i \in 1..Len(E.variants) : E.variants[i].word) \/ E.from_word THEN <<>> ELSE <<M("other", "", Pf, p, FALSE)>>
+         \* a skipped variant can never be produced: `skip` wins over `word`
+         IF (\E i \in 1..Len(E.variants) : E.variants[i].word /\ ~E.variants[i].skip) \/ E.from_word THEN <<>> ELSE <<M("other", "", Pf, p, FALSE)>>
     [] it.form = "nv" ->
          IF LitKind(it.val) # "s" \/ live(LitBody(it.val)) = {} THEN <<M("other", "", Pf, p, FALSE)>>
          ELSE LET v == E.variants[pick(LitBody(it.val))] IN
@@ -158,8 +159,9 @@ EnumValue(E, it) ==
                      /\ \A j \in 1..(i-1) : E.variants[j].skip \/ VariantName(E, E.variants[j]) # name
   IN
   CASE it.form = "word" ->
-         IF \E i \in 1..Len(E.variants) : E.variants[i].word
-         THEN <<E.variants[CHOOSE i \in 1..Len(E.variants) : E.variants[i].word /\ \A j \in 1..(i-1) : ~E.variants[j].word].rust>>
+         IF \E i \in 1..Len(E.variants) : E.variants[i].word /\ ~E.variants[i].skip
+         THEN <<E.variants[CHOOSE i \in 1..Len(E.variants) : E.variants[i].word /\ ~E.variants[i].skip
+                                                                /\ \A j \in 1..(i-1) : ~(E.variants[j].word /\ ~E.variants[j].skip)].rust>>
          ELSE <<FirstUnit(E)>>
     [] it.form = "nv" ->
          LET v == E.variants[idx(LitBody(it.val))] IN
